@@ -168,7 +168,7 @@ DecodeFile(b) == FileWithHeader(b, Header(b))
 \* ------------------------------------------------------------------ small-scope domain of C06 (exported to the driver by Gen_XBin)
 \* "exhaustively for all rows of width 1..=7 over an alphabet of 3 characters x 3 attributes x 2 font pages
 \*  (and width <= 10 over 2x2)".  Attributes are (fg, bg, blink) with fg < 8 so that they exist in 512-character mode.
-Small3Chars == <<65, 219, 32>>
+Small3Chars == <<65, 0, 32>>          \* a letter and the two "empty" codes NUL and blank (they must stay distinct cells)
 Small3Attrs == << <<7, 0, 0>>, <<1, 3, 0>>, <<7, 4, 0>> >>
 Small3Pages == <<0, 1>>
 Small3MaxW  == 7
